@@ -215,8 +215,12 @@ structure Wire where
   size : Nat := 0
   deriving DecidableEq, Repr
 
+/-- an informational status (1xx except 101 Switching Protocols): net/http sends it at once and keeps waiting for the
+    final status -/
+def isInfo (c : Nat) : Bool := 100 ≤ c && c ≤ 199 && c != 101
+
 def Wire.step (w : Wire) : WOp → Wire
-  | .header c => if w.status.isNone then { w with status := some c } else w
+  | .header c => if isInfo c then w else if w.status.isNone then { w with status := some c } else w
   | .write n => { status := some (w.status.getD 200), size := w.size + n }
   | .readFrom n => { status := some (w.status.getD 200), size := w.size + n }
 
@@ -232,7 +236,11 @@ structure RW where
 
 def RW.step (rw : RW) : WOp → RW
   | .header c =>
-    if !rw.written then { rw with statusCode := c, under := rw.under.step (.header c), written := true } else rw
+    -- after /repo fix K08g: `if code >= 100 && code <= 199 && code != 101 { rw.ResponseWriter.WriteHeader(code); return }`
+    if !rw.written then
+      (if isInfo c then { rw with under := rw.under.step (.header c) }
+       else { rw with statusCode := c, under := rw.under.step (.header c), written := true })
+    else rw
   | .write n =>
     let rw1 := if !rw.written then { rw with written := true, statusCode := 200 } else rw
     { rw1 with under := rw1.under.step (.write n), size := rw1.size + n }
@@ -242,10 +250,18 @@ def RW.step (rw : RW) : WOp → RW
     let rw1 := { rw with under := rw.under.step (.readFrom n), size := rw.size + n }
     if !rw1.written then { rw1 with written := true, statusCode := if rw1.statusCode = 0 then 200 else rw1.statusCode } else rw1
 
+/-- WriteHeader as shipped before K08g: an informational code was taken for the final status and every later
+    WriteHeader was swallowed -/
+def RW.stepAsIs (rw : RW) : WOp → RW
+  | .header c =>
+    if !rw.written then { rw with statusCode := c, under := rw.under.step (.header c), written := true } else rw
+  | op => rw.step op
+
 /-- StatusCode(): `if rw.statusCode == 0 { return http.StatusOK }` -/
 def RW.StatusCode (rw : RW) : Nat := if rw.statusCode = 0 then 200 else rw.statusCode
 
 def RW.run (rw : RW) (ops : List WOp) : RW := ops.foldl RW.step rw
+def RW.runAsIs (rw : RW) (ops : List WOp) : RW := ops.foldl RW.stepAsIs rw
 
 /-- the writer operations of the probe programs -/
 def Prog.ops : Prog → List WOp
